@@ -1,11 +1,13 @@
 use rusty_common::{AtPos, Position};
-use rusty_parser::{AsBareName, BareName, Expression, ExpressionType, Expressions, Name};
+use rusty_parser::{
+    AsBareName, BareName, Expression, ExpressionType, Expressions, Name, TypeQualifier,
+};
 
 use crate::converter::common::{ConvertibleIn, ExprContext, ExprContextPos};
 use crate::converter::expr_rules::qualify_name::*;
 use crate::core::{
-    IntoQualified, IntoTypeQualifier, LintError, LintErrorPos, LintResult, LinterContext,
-    VariableInfo,
+    CanCastTo, IntoQualified, IntoTypeQualifier, LintError, LintErrorPos, LintResult,
+    LinterContext, VariableInfo,
 };
 
 pub fn convert(
@@ -119,6 +121,12 @@ impl FuncResolve for ExistingArrayWithParenthesis {
         // convert args (the array indices are ordinary expressions,
         // regardless of the context of the array element itself)
         let converted_args = args.convert_in(ctx, ExprContext::Default)?;
+        // the array indices need to be numeric
+        for arg in &converted_args {
+            if !arg.can_cast_to(&TypeQualifier::PercentInteger) {
+                return Err(LintError::TypeMismatch.at(arg));
+            }
+        }
         // convert name
         let VariableInfo {
             expression_type, ..
